@@ -76,6 +76,13 @@ Fixpoint all_some {A} (l : list (option A)) : option (list A) :=
 
 Definition Qzero (q : Q) : bool := Z.eqb (Qnum q) 0.
 
+(* exact square root of a non-negative rational in lowest terms, when it exists *)
+Definition qsqrt (q : Q) : option Q :=
+  let n := Qnum q in let d := Zpos (Qden q) in
+  if Z.ltb n 0 then None
+  else let rn := Z.sqrt n in let rd := Z.sqrt d in
+       if Z.eqb (rn * rn) n && Z.eqb (rd * rd) d then Some (Qred (Qmake rn (Z.to_pos rd))) else None.
+
 Definition stdIo (o : op) (args : list Q) : option Q :=
   match o, args with
   | OAdd, _ => Some (Qred (fold_right (fun a b => Qred (a + b)) 0 args))
@@ -87,7 +94,17 @@ Definition stdIo (o : op) (args : list Q) : option Q :=
         if Qzero a && Z.ltb (to_int b) 0 then None
         else if Z.ltb 64 (Z.abs (to_int b)) then None
         else Some (Qred (Qpower a (to_int b)))
-      else None
+      else
+        (* half-integer exponents on perfect squares (square roots that come out exact) *)
+        let b2 := Qred (b * 2) in
+        if Pos.eqb (Qden b2) 1 then
+          match qsqrt (Qred a) with
+          | Some r => if Qzero r && Z.ltb (Qnum b2) 0 then None
+                      else if Z.ltb 64 (Z.abs (Qnum b2)) then None
+                      else Some (Qred (Qpower r (Qnum b2)))
+          | None => None
+          end
+        else None
   | ONeg, [a] => Some (Qred (- a))
   | OFloorDiv, [a; b] => if Qzero b then None else Some (Qfloordiv a b)
   | OMod, [a; b] => if Qzero b then None else Some (Qred (Qmod_std a b))
